@@ -327,6 +327,48 @@ def r_iso( ctx ):
                     res.bad( src, srcs[0][0], 'source = rememberable() outside the UDP receive loop', 'bytes left over from one peer\'s datagram are prepended to the next peer\'s request' )
         else:
             res.bad( src, fn, '%s source' % qn, 'each connection needs its own input source' )
+        if qn == 'enip_srv_tcp':
+            # the record through which a connection is told to end ( stats.eof ) is the connection's own: a TCP connection asks stats_for for a
+            # FRESH entry, and stats_for does not consult the table of live connections then.  Handed the entry of an earlier connection
+            # from the same peer ip:port ( whose thread is still winding down and sets eof when it finds its socket gone ), the new session
+            # is ended together with the old one
+            from .fold import fold, NoFold
+            calls = [ c for c in ast.walk( fn ) if is_call_to( c, 'stats_for' ) ]
+            sf = src.get( 'stats_for' )
+            params = [ a.arg for a in sf.args.args ]
+            fresh = None
+            if len( calls ) == 1:
+                c = calls[0]
+                kw = { k.arg: k.value for k in c.keywords if k.arg }
+                for i_, pn in enumerate( params[1:], start=1 ):
+                    v = kw.get( pn, c.args[i_] if len( c.args ) > i_ else None )
+                    if v is not None:
+                        try:
+                            if fold( v ) is True:
+                                fresh = pn
+                        except NoFold:
+                            pass
+            looks = [ a for a in ast.walk( sf ) if isinstance( a, ast.Assign ) and any( isinstance( g, ast.Call ) and isinstance( g.func, ast.Attribute ) and g.func.attr == 'get' and dotted( g.func.value ) == 'connections' for g in ast.walk( a.value )) ]
+            if fresh is None:
+                res.bad( src, calls[0] if calls else fn, 'enip_srv_tcp: %s' % ( norm_text( ast.unparse( calls[0] )) if calls else 'no stats_for call' ),
+                         'a new TCP connection takes over the stats entry of an earlier connection from the same peer address: when the earlier thread ( still winding down ) sets eof, the new session is closed with it - a connection that ended mid-frame must leave other sessions working' )
+            elif len( looks ) != 1:
+                raise AnalysisError( 'stats_for: %d look-ups of an existing entry' % len( looks ))
+            else:
+                key = [ g.args[0] for g in ast.walk( looks[0].value ) if isinstance( g, ast.Call ) and isinstance( g.func, ast.Attribute ) and g.func.attr == 'get' and dotted( g.func.value ) == 'connections' ][0]
+                try:
+                    env = { dotted( key ): 'k', 'connections': { 'k': 'EARLIER' } }
+                    got_fresh = fold( looks[0].value, dict( env, **{ fresh: True } ))
+                except NoFold as exc:
+                    raise AnalysisError( 'stats_for: look-up of an existing entry not foldable: %s' % exc )
+                guarded = got_fresh is None
+                if not guarded:
+                    pass
+                if guarded:
+                    res.ok( src, looks[0], 'enip_srv_tcp: stats_for( ..., %s=True ) - an entry left by an earlier connection from the same peer address is never handed to a new connection' % fresh )
+                else:
+                    res.bad( src, looks[0], 'stats_for: %s yields the existing entry although %s is set' % ( norm_text( ast.unparse( looks[0] )), fresh ),
+                             'a new TCP connection takes over the stats entry ( and its eof flag ) of an earlier connection from the same peer address' )
         mach = [ w for w in ast.walk( fn ) if isinstance( w, ast.With ) and any( is_call_to( it.context_expr, 'parser.enip_machine' ) and roles.get( 'machine' ) and dotted( it.optional_vars ) == roles['machine'] for it in w.items ) ]
         if mach:
             res.ok( src, mach[0], '%s: its own enip_machine instance, held for the connection' % qn )
